@@ -54,7 +54,7 @@ RULE = (
 )
 CLASSES = [
     "nested_dict", "list_mutation", "multi_handle", "project_doc", "buffer_cap0", "nested_blocks", "forced_flush", "block_left_by_exception",
-    "multi_handle_in_block", "stale_object_in_block", "doc_after_remove", "doc_after_rekey", "attr_access", "assign_live_view", "type_drift", "write_deferred", "keyerror_matched",
+    "multi_handle_in_block", "stale_object_in_block", "inside_with_job", "doc_after_remove", "doc_after_rekey", "attr_access", "assign_live_view", "type_drift", "write_deferred", "keyerror_matched",
     "lifecycle_between_blocks", "job_clear", "job_reset", "copy_handle_follows_rekey", "capacity_in_block",
 ]
 ASSUMPTIONS = [
@@ -839,6 +839,28 @@ class Run:
                 hidx = self.pin.setdefault(t, hidx)
         h = self.handles[t][hidx]
         self._op_objs = set()
+        if self.case.get("job_ctx") and t != self.nj and name not in LIFECYCLE_OPS and not getattr(self, "_in_ctx", False):
+            # the operation (and everything that is compared after it: other handles, the file) happens while the
+            # acting job is open as a context manager (`with job:`)
+            self.cl.add("inside_with_job")
+            here = os.getcwd()
+            try:
+                h["obj"].open()
+            except Exception as e:
+                self.mm("unexpected_exception", f"job.open() raised {type(e).__name__}: {e}")
+                return
+            self._in_ctx = True
+            try:
+                return self.step(i, op)
+            finally:
+                self._in_ctx = False
+                try:
+                    h["obj"].close()
+                except Exception as e:
+                    if not self.fatal:
+                        self.mm("unexpected_exception", f"job.close() raised {type(e).__name__}: {e}")
+                finally:
+                    os.chdir(here)
         if self.mode == "U":
             self.used[t].add(hidx)
             if len(self.used[t]) >= 2:
@@ -1197,6 +1219,7 @@ def cases(draw, max_ops=30):
         "unpin": draw(st.integers(0, 2)) == 0,
         "spell": draw(st.integers(0, 2)) == 0,
         "exit_exc": draw(st.integers(0, 3)) == 0,
+        "job_ctx": draw(st.integers(0, 3)) == 0,
         "nh": draw(st.sampled_from([1, 2, 3, 3])),
         "init": init,
         "copy_after_doc": draw(st.booleans()),
@@ -1236,6 +1259,10 @@ def _c(ops, **kw):
 
 
 CONSTRUCTED = [
+    # document operations while the job is open as a context manager (`with job:`): visible to other handles and in the file at once
+    {"targets": 1, "keepref": False, "nh": 3, "job_ctx": True, "init": [{"x": 1}, None], "copy_after_doc": False, "mode_R": [], "capacity": None, "ops": [
+        {"op": "setitem", "t": 0, "h": 0, "k": "k", "v": 1}, {"op": "update_kw", "t": 0, "h": 1, "m": {"y": [1, 2]}}, {"op": "setitem", "t": 0, "h": 2, "k": "z", "v": {"a": None}},
+        {"op": "read_call", "t": 0, "h": 0}]},
     # the document assigned to its own live view (project and job document, also from a second handle)
     {"targets": 1, "keepref": False, "nh": 2, "init": [{"x": 1, "n": {"y": [1]}}, {"p": 2}], "copy_after_doc": False, "mode_R": [], "capacity": None, "ops": [
         {"op": "assign_self", "t": 1, "h": 0}, {"op": "read_call", "t": 1, "h": 1}, {"op": "assign_self", "t": 1, "h": 0, "from": 1},
